@@ -84,12 +84,20 @@ def build(tier, seed):
             return c
         mk2.__name__ = mk.__name__
         return mk2
+    def _ptd():
+        from contracts import settingsc
+        from bounded import c11
+        c = settingsc.parse_to_dict(PROP)
+        c.search_fn = c11.extra_mods_quoted
+        return c
+    _ptd.__name__ = "parse_to_dict"
     def _incl():
         from contracts import plumbing
         from bounded import c09
         return plumbing.sourcefile_gets_incl_src(PROP, lambda: c09.site_search(shape_names=("constructors local types and file links",), options=[c09.OPTIONS[1]]))
     tasks = [Task(f"{PROP}.S.incl_src", PROP, "Project._fortran_file", _incl),
              a_task(PROP, _w(links.find_in_list)), a_task(PROP, _w(links.project_find_tail)), a_task(PROP, _w(links.convert_link_lookup)), link_re_task(),
+             a_task(PROP, _ptd),
              Task(f"{PROP}.S.no_memo", PROP, "FordLinkProcessor.handleMatch", lambda: links.no_memo_obligation(PROP, lambda: __import__("bounded.c11", fromlist=["x"]).search())),
              Task(f"{PROP}.S.page_of_the_context", PROP, "MetaMarkdown.convert / FortranBase.markdown", lambda: links.page_of_the_context(PROP, lambda: __import__("bounded.c11", fromlist=["x"]).site_references())),
              site_refs_task(),
